@@ -17,9 +17,20 @@ KNOWN = {}
 HIER_KW_WIDE = dict(n_classes=(3, 6), dag=True, multi_root=True, with_invs=False, with_init=False)
 
 
-def strategy():
-    return st.one_of(D.st_function_case(DECO_KW), D.st_class_case(DECO_KW, HIER_KW), D.st_class_case(DECO_KW, HIER_KW),
-                     D.st_class_case(dict(DECO_KW, n_pre=(0, 2), n_post=(0, 1), n_snap=(0, 0)), HIER_KW_WIDE))
+@st.composite
+def strategy(draw):
+    case = draw(st.one_of(D.st_function_case(DECO_KW), D.st_class_case(DECO_KW, HIER_KW), D.st_class_case(DECO_KW, HIER_KW),
+                          D.st_class_case(dict(DECO_KW, n_pre=(0, 2), n_post=(0, 1), n_snap=(0, 0)), HIER_KW_WIDE)))
+    # on async callables a precondition may deliver its verdict as any awaitable: coroutine function, sync function
+    # returning a coroutine, an object with __await__, a done Future - the awaited value gates the call
+    p = case["program"]
+    for f in list(p.get("funcs", [])) + [m for c in p.get("classes", []) for m in c.get("members", [])]:
+        if f.get("async"):
+            for d in f.get("decos", []):
+                if d["t"] == "require" and draw(st.integers(0, 2)) == 0:
+                    d["flavor"] = draw(st.sampled_from(["corofunc", "ret_coro", "awaitable", "future"]))
+                    d["lam"] = False
+    return case
 
 
 def exclude(ctx, case, model):
